@@ -20,13 +20,19 @@
 
 
 
+#include "XPathCharacters.hpp"
+
+
+
 namespace XALAN_CPP_NAMESPACE {
 
 
 
 FormatterStringLengthCounter::FormatterStringLengthCounter() :
     FormatterListener(OUTPUT_METHOD_NONE),
-    m_count(0)
+    m_count(0),
+    m_pairCount(0),
+    m_highSurrogatePending(false)
 {
 }
 
@@ -78,10 +84,45 @@ FormatterStringLengthCounter::endElement(
 
 void
 FormatterStringLengthCounter::characters(
-            const XMLCh* const  /* chars */,
+            const XMLCh* const  chars,
             const size_type     length)
 {
     m_count += length;
+
+    // Count the surrogate pairs, so that getCharacterCount() can
+    // count each of them as one character.
+    if (length != 0)
+    {
+        size_type   i = 0;
+
+        if (m_highSurrogatePending == true &&
+            XPathCharacters::isLowSurrogate(chars[0]) == true)
+        {
+            // The pair started at the end of the previous event.
+            ++m_pairCount;
+            ++i;
+        }
+
+        m_highSurrogatePending = false;
+
+        while (i < length)
+        {
+            if (XPathCharacters::isHighSurrogate(chars[i]) == true)
+            {
+                if (i + 1 == length)
+                {
+                    m_highSurrogatePending = true;
+                }
+                else if (XPathCharacters::isLowSurrogate(chars[i + 1]) == true)
+                {
+                    ++m_pairCount;
+                    ++i;
+                }
+            }
+
+            ++i;
+        }
+    }
 }
 
 
